@@ -285,6 +285,29 @@ def plain_assignments(tree):
                     blk[:] = out
 
 
+class _CompareOrder(ast.NodeTransformer):
+    """``a == b`` / ``a != b`` are symmetric: the operands are put in one
+    fixed order (constants last, otherwise by their text), so that a rule
+    reads the same on ``x == 1`` and ``1 == x``."""
+
+    @staticmethod
+    def _key(e):
+        return (isinstance(e, ast.Constant), ast.unparse(e))
+
+    def visit_Compare(self, node):
+        self.generic_visit(node)
+        if len(node.ops) == 1 and isinstance(node.ops[0], (ast.Eq, ast.NotEq)):
+            l, r = node.left, node.comparators[0]
+            if self._key(l) > self._key(r):
+                node.left, node.comparators = r, [l]
+        return node
+
+
+def order_compares(tree):
+    _CompareOrder().visit(tree)
+    return tree
+
+
 def pre_normalise(tree):
     plain_assignments(tree)
     strip_noops(tree)
